@@ -205,7 +205,7 @@ def convert_protocol(env_a, pa, ns_a, env_b, pb, ns_b, vals):
     return out
 
 
-def make_chain(rng):
+def make_chain(rng, force=()):
     cfg = M.GenConfig.swarm(rng.fork("cfg"))
     cfg.imports = 0
     cfg.generics = False
@@ -315,7 +315,7 @@ def make_chain(rng):
     # the last thing in the stream: a record whose trailing fields (a string, vectors of fixed-size numbers) go away in later versions
     tails = ()
     rt = rng.fork("evotail")
-    if rt.chance(0.6):
+    if rt.chance(0.6) or "tail" in force:
         fn0 = sorted(base.files)[0]
         base.files[fn0].append(M.Record("EvoTail", (), [("id", M.Prim("int32")), ("weights", M.Vec(M.Prim(rt.choice(["float32", "float64", "uint8"])))), ("samples", M.Vec(M.Prim("complexfloat32"))),
                                                      ("note", M.Prim("string"))]))
@@ -372,10 +372,14 @@ def make_chain(rng):
     # ... and one protocol that none of the above touches: it stays as it is through (nearly) all versions, so that the
     # version tables of the generated code have entries that merely repeat the current schema
     base.files[sorted(base.files)[0]].append(M.Protocol("EvoStill", [("count", M.Prim("int32"), False), ("names", M.Prim("string"), True), ("gains", M.Vec(M.Prim("float32")), False)]))
+    # (the record with the disappearing tail stays the last thing in the stream, whatever steering was added after it)
+    for d in base.defs():
+        if isinstance(d, M.Protocol):
+            d.steps = [s_ for s_ in d.steps if s_[0] != "evolast"] + [s_ for s_ in d.steps if s_[0] == "evolast"]
     k = rng.fork("chainshape")
     newest = E.with_versions(base, rng.fork("ver"), k.choice([1, 2, 2, 3]), partial=True, must_edit=must,
                              order=k.choice(["oldest_first", "oldest_first", "newest_first", "shuffled"]), p_new_protocol=k.choice([0.0, 0.4]),
-                             widen_steps=("evo3", "evo4", "evo6", "evo7", "evo10", "value", "values"), widen_aliases=wal, union_steps=ust, to_union_steps=tust, tail_records=tails, fixed_vector_records=fvr, reorder_only=ro, enum_bases=eb)
+                             widen_steps=("evo3", "evo4", "evo6", "evo7", "evo10", "value", "values"), widen_aliases=wal, union_steps=ust, to_union_steps=tust, tail_records=tails, fixed_vector_records=fvr, reorder_only=ro, enum_bases=eb, tail_p=1.0 if "tail" in force else 0.6)
     newest.speculative = bool(eb)
     # where the previous versions come from: directories next to the package, or commits of one git repository named by URL
     newest.versions_from_git = k.fork("git").chance(0.3)
